@@ -1,6 +1,9 @@
 package models
 
-import "fmt"
+import (
+	"fmt"
+	"math"
+)
 
 type Quantizer struct {
 	Type    string                      `json:"type" binding:"required,oneof=none binary product"`
@@ -59,6 +62,13 @@ type BinaryQuantizerParamaters struct {
 }
 
 func (b BinaryQuantizerParamaters) Validate() error {
+	// A threshold that is not a finite number (a MessagePack body can carry
+	// one) cannot be compared with and cannot be written into an answer.
+	if b.Threshold != nil {
+		if t := float64(*b.Threshold); math.IsNaN(t) || math.IsInf(t, 0) {
+			return fmt.Errorf("threshold must be a finite number")
+		}
+	}
 	if b.Threshold == nil && (b.TriggerThreshold < 0 || b.TriggerThreshold > 50000) {
 		return fmt.Errorf("triggerThreshold must be between 0 and 50000, got %d", b.TriggerThreshold)
 	}
